@@ -1,4 +1,8 @@
-(* C28 — The client handshake log records what was actually exchanged: property theorems only. *)
+(* C28 — The client handshake log records what was actually exchanged.
+   Property theorems only; each is closed by [exact] of a lemma from proof/C28Proofs.v and
+   followed by Print Assumptions.  enc_* are the RFC encoders, dec_* the model's decoders,
+   *_log_of the projection onto the log fields (model/C28.v); the name and signatureAlgorithms
+   tables are those regenerated from the built code. *)
 From Coq Require Import List NArith Bool Arith.
 From Verif Require Import Harness.
 From VerifGen Require Import C28Tables_gen.
@@ -7,6 +11,157 @@ From VerifProof Require Import C28Proofs.
 Import ListNotations.
 Open Scope N_scope.
 
-Theorem C28_dec_u8_enc : forall n rest, dec_u8 (enc_u8 n ++ rest) = Some (n, rest).
-Proof. exact dec_u8_enc. Qed.
-Print Assumptions C28_dec_u8_enc.
+(* ---- the independent parse is faithful to the wire formats (left inverse of the encoders) ---- *)
+Theorem C28_client_hello_roundtrip : forall h,
+  hello_ok h -> dec_client_hello (enc_client_hello h) = Some h.
+Proof. exact dec_client_hello_enc. Qed.
+Print Assumptions C28_client_hello_roundtrip.
+
+Theorem C28_server_hello_roundtrip : forall h,
+  server_hello_ok h -> dec_server_hello (enc_server_hello h) = Some h.
+Proof. exact dec_server_hello_enc. Qed.
+Print Assumptions C28_server_hello_roundtrip.
+
+Theorem C28_certificate_roundtrip : forall l,
+  Forall (fun c => blen c < 16777216) l -> blen (flat_map enc_vec24 l) < 16777216 ->
+  dec_certificate (enc_certificate l) = Some l.
+Proof. exact dec_certificate_enc. Qed.
+Print Assumptions C28_certificate_roundtrip.
+
+Theorem C28_skx_ecdhe_roundtrip : forall k,
+  skx_p k = [] -> skx_g k = [] -> dec_skx_ecdhe (has_scheme k) (enc_skx_ecdhe k) = Some k.
+Proof. exact dec_skx_ecdhe_enc. Qed.
+Print Assumptions C28_skx_ecdhe_roundtrip.
+
+Theorem C28_skx_dhe_roundtrip : forall k,
+  skx_curve k = 0 -> dec_skx_dhe (has_scheme k) (enc_skx_dhe k) = Some k.
+Proof. exact dec_skx_dhe_enc. Qed.
+Print Assumptions C28_skx_dhe_roundtrip.
+
+Theorem C28_new_session_ticket_roundtrip : forall lt t,
+  lt < 4294967296 -> dec_new_session_ticket (enc_new_session_ticket lt t) = Some (lt, t).
+Proof. exact dec_new_session_ticket_enc. Qed.
+Print Assumptions C28_new_session_ticket_roundtrip.
+
+Theorem C28_handshake_framing : forall msgs,
+  Forall msg_ok msgs -> dec_msgs (flat_map enc_msg msgs) = Some msgs.
+Proof. exact dec_msgs_enc. Qed.
+Print Assumptions C28_handshake_framing.
+
+(* ---- log_fields_are_wire_fields ---- *)
+(* the ClientHello / ServerHello parts of the log are functions of the message that was sent *)
+Theorem C28_client_hello_log_is_wire : forall h,
+  hello_ok h -> bind (dec_client_hello (enc_client_hello h)) ch_log_of = ch_log_of h.
+Proof. exact ch_log_of_wire. Qed.
+Print Assumptions C28_client_hello_log_is_wire.
+
+Theorem C28_server_hello_log_is_wire : forall h a,
+  server_hello_ok h -> bind (dec_server_hello (enc_server_hello h)) (fun x => sh_log_of x a) = sh_log_of h a.
+Proof. exact sh_log_of_wire. Qed.
+Print Assumptions C28_server_hello_log_is_wire.
+
+(* field by field: fixed fields are the wire fields, flags say whether the extension is present,
+   list fields are the decoded body of the extension of that type *)
+Theorem C28_client_hello_log_fields : forall h l,
+  ch_log_of h = Some l ->
+  cl_version l = h_vers h /\ cl_random l = h_random h /\ cl_sid l = h_sid h /\
+  cl_suites l = h_suites h /\ cl_comps l = h_comps h /\
+  cl_ocsp l = has_ext ext_status_request (h_exts h) /\
+  cl_ticket l = has_ext ext_ticket (h_exts h) /\
+  cl_reneg l = has_ext ext_reneg (h_exts h) /\
+  cl_scts l = has_ext ext_sct (h_exts h) /\
+  (forall name, find_ext ext_sni (h_exts h) = Some (enc_sni name) -> cl_sni l = name) /\
+  (forall cs, find_ext ext_curves (h_exts h) = Some (enc_u16_list16 cs) -> cl_curves l = cs) /\
+  (forall vs, find_ext ext_versions (h_exts h) = Some (enc_u16_list8 vs) -> cl_versions l = vs) /\
+  (forall ps, find_ext ext_alpn (h_exts h) = Some (enc_alpn ps) -> cl_alpn l = ps) /\
+  (forall ss, find_ext ext_sigalgs (h_exts h) = Some (enc_u16_list16 ss) -> cl_sigalgs l = map_sig_algs ss) /\
+  (forall t, t <> [] -> find_ext ext_ticket (h_exts h) = Some t -> cl_session_ticket l = Some t).
+Proof. exact ch_log_fields. Qed.
+Print Assumptions C28_client_hello_log_fields.
+
+(* byte strings are complete: the random of any ClientHello that parses has 32 bytes *)
+Theorem C28_random_complete : forall b h, dec_client_hello b = Some h -> blen (h_random h) = 32.
+Proof. exact dec_client_hello_random. Qed.
+Print Assumptions C28_random_complete.
+
+(* a whole TLS <= 1.2 ECDHE handshake: every part of the log is the projection of the messages sent *)
+Theorem C28_log_fields_are_wire_fields : forall ch sh certs k cpub nst a cl sl ka pt cpt,
+  hello_ok ch -> server_hello_ok sh ->
+  ch_log_of ch = Some cl -> sh_log_of sh a = Some sl -> sl_selected_version sl = None ->
+  Forall (fun c => blen c < 16777216) certs -> blen (flat_map enc_vec24 certs) < 16777216 ->
+  ka_of_suite (sl_suite sl) = Some ka -> (ka = 1 \/ ka = 2) ->
+  skx_p k = [] -> skx_g k = [] ->
+  has_scheme k = (771 <=? sl_version sl) ->
+  point_of (skx_curve k) (skx_public k) = Some pt ->
+  point_of (skx_curve k) cpub = Some cpt ->
+  (forall s, skx_scheme k = Some s -> logged_sig_and_hash_ecdhe s <> None) ->
+  (forall lt t, nst = Some (lt, t) -> lt < 4294967296) ->
+  log_of_msgs [(1, enc_client_hello ch); (16, enc_vec8 cpub)]
+              ([(2, enc_server_hello sh); (11, enc_certificate certs); (12, enc_skx_ecdhe k)] ++
+               match nst with Some (lt, t) => [(4, enc_new_session_ticket lt t)] | None => [] end ++ [(14, [])]) a
+  = Some (mkLog cl sl certs
+            (Some (mkSkxLog (skx_curve k) (Some pt) None (skx_sig k)
+                     (match skx_scheme k with Some s => logged_sig_and_hash_ecdhe s | None => None end)))
+            (Some (CkxEcdh (skx_curve k) cpt))
+            (Some (a_client_finished a)) (Some (a_server_finished a))
+            (match nst with
+             | Some (lt, t) => Some (t, Some lt)
+             | None => match cl_session_ticket cl with Some t => Some (t, None) | None => None end
+             end)
+            (Some (a_master a)) (Some (a_premaster a))).
+Proof. exact log_of_full_ecdhe_handshake. Qed.
+Print Assumptions C28_log_fields_are_wire_fields.
+
+(* the record layer in front of it: each side's messages are recovered from its own records, for
+   any interleaving of the two directions and any fragmentation of the flights *)
+Theorem C28_log_of_transcript : forall recs cmsgs smsgs cfrags sfrags v crest srest a,
+  Forall msg_ok cmsgs -> Forall msg_ok smsgs ->
+  concat cfrags = flat_map enc_msg cmsgs -> concat sfrags = flat_map enc_msg smsgs ->
+  filter (fun x => Bool.eqb (fst x) true) recs
+    = map (fun f => (true, enc_record 22 v f)) cfrags ++ (true, enc_record 20 v [1]) :: crest ->
+  filter (fun x => Bool.eqb (fst x) false) recs
+    = map (fun f => (false, enc_record 22 v f)) sfrags ++ (false, enc_record 20 v [1]) :: srest ->
+  log_of recs a = log_of_msgs cmsgs smsgs a.
+Proof. exact log_of_transcript. Qed.
+Print Assumptions C28_log_of_transcript.
+
+(* ---- sig_hash_is_wire_scheme ---- *)
+Theorem C28_sig_hash_is_wire_scheme : forall ka k,
+  (ka = 1 \/ ka = 2) -> skx_p k = [] -> skx_g k = [] -> forall s, skx_scheme k = Some s ->
+  forall l, skx_log_of ka 771 (enc_skx_ecdhe k) = Some l ->
+  kl_sig_and_hash l = logged_sig_and_hash_ecdhe s /\ kl_sig_raw l = skx_sig k /\ kl_curve l = skx_curve k.
+Proof. exact sig_hash_is_wire_scheme. Qed.
+Print Assumptions C28_sig_hash_is_wire_scheme.
+
+Theorem C28_sig_hash_is_wire_scheme_dhe : forall ka k,
+  ka <> 1 -> ka <> 2 -> skx_curve k = 0 -> forall s, skx_scheme k = Some s ->
+  forall l, skx_log_of ka 771 (enc_skx_dhe k) = Some l ->
+  kl_sig_and_hash l = Some (s mod 256, s / 256) /\ kl_sig_raw l = skx_sig k.
+Proof. exact sig_hash_is_wire_scheme_dhe. Qed.
+Print Assumptions C28_sig_hash_is_wire_scheme_dhe.
+
+(* the logged pair determines the wire scheme (every supported scheme) *)
+Theorem C28_logged_pair_determines_scheme : forall s1 s2,
+  In s1 supported_signature_algorithms -> In s2 supported_signature_algorithms ->
+  logged_sig_and_hash_ecdhe s1 = logged_sig_and_hash_ecdhe s2 -> s1 = s2.
+Proof. exact logged_pair_determines_scheme. Qed.
+Print Assumptions C28_logged_pair_determines_scheme.
+
+(* ---- name_table_consistent: the JSON names of the logged codes are the RFC names of the
+   scheme's signature algorithm and hash, for every scheme the package supports ---- *)
+Theorem C28_name_table_consistent : forall s,
+  In s supported_signature_algorithms ->
+  exists sg h, logged_sig_and_hash_ecdhe s = Some (sg, h) /\
+               name_of signature_names_tbl sg = rfc_sig_name s /\
+               name_of hash_names_tbl h = rfc_hash_name s /\ rfc_hash_name s <> [].
+Proof. exact name_table_consistent. Qed.
+Print Assumptions C28_name_table_consistent.
+
+(* non-vacuity / the defect of DESIGN section 8 row 13 as a regression witness: ecdsa_secp256r1_sha256
+   (04 03) on the wire is shown as (ecdsa, 4 = sha256) *)
+Theorem C28_sig_hash_example :
+  option_map kl_sig_and_hash
+    (skx_log_of 2 771 (enc_skx_ecdhe (mkSkx 29 [1;2;3] [] [] (Some 1027) [9;9])))
+  = Some (Some (sig_ecdsa, 4)).
+Proof. exact sig_hash_example. Qed.
+Print Assumptions C28_sig_hash_example.
